@@ -487,9 +487,16 @@ def cap_check(P):
         return False, f"cap `{fmt_term(I)[:100]}` is not the intercept of the successor of `{fmt_term(seg)[:60]}`", M[2][1]
     # Compressed: level(slopes_table, i, k) vs level.get_intercept(i + 1)
     if M[0] == 'call' and M[1] == 'pgm::CompressedPGMIndex::CompressedLevel::operator()' and len(M[2]) == 3:
-        lvl, idx = M[3], _strip_cast(M[2][1])
-        if I[0] == 'call' and I[1] == 'pgm::CompressedPGMIndex::CompressedLevel::get_intercept' and I[3] == lvl and len(I[2]) == 1:
-            j = _strip_cast(I[2][0])
+        def _nc(t):
+            # integral conversions of an index (size_t parameter of a helper) do not change which segment it designates
+            if isinstance(t, tuple):
+                if t and t[0] == 'cast' and len(t) == 3:
+                    return _nc(t[2])
+                return tuple(_nc(x) for x in t)
+            return t
+        lvl, idx = M[3], _nc(_strip_cast(M[2][1]))
+        if I[0] == 'call' and I[1] == 'pgm::CompressedPGMIndex::CompressedLevel::get_intercept' and _nc(I[3]) == _nc(lvl) and len(I[2]) == 1:
+            j = _nc(_strip_cast(I[2][0]))
             if j[0] == 'op' and len(j) == 4 and j[1] == '+' and ((_strip_cast(j[2]) == idx and j[3] == ('lit', 1)) or (_strip_cast(j[3]) == idx and j[2] == ('lit', 1))):
                 return True, f"min(model of segment {fmt_term(idx)[:40]} of {fmt_term(lvl)[:30]}, get_intercept(same index + 1))", M[2][2]
         return False, f"cap `{fmt_term(I)[:100]}` is not get_intercept(i + 1) of the level/index `{fmt_term(lvl)[:30]}`/`{fmt_term(idx)[:40]}` the model uses", M[2][2]
@@ -634,6 +641,9 @@ def rule_kind_pgm(ctx, units=None):
             if t[0] == 'local':
                 vid = t[2]
                 ws = [w for w in fn_writes(f, vid) if reachable(f, w)]
+                # the kind of the cursor where it is returned: LAST_LE(key) there means every path (scan or bisection) ended in it
+                kr = sb(r, vid)
+                scanned_ok = bool(kr) and kr != kinds.START and kr[0] == 'LAST_LE' and kr[1] == KEY
                 if not ws:
                     obs.append(Ob('KIND', f, r, 'routing result LAST_LE(key) returned', 'returned cursor is never assigned by a recognised routing step', UNDECIDED, arm='return'))
                 for w in ws:
@@ -646,11 +656,18 @@ def rule_kind_pgm(ctx, units=None):
                         else:
                             k = kinds.kind_of_term(f.term(rhs, inline=True))
                         ok = bool(k) and k != kinds.START and k[0] == 'LAST_LE' and k[1] == KEY
+                        st_ = OK if ok else (UNDECIDED if k is None else VIOLATED)
+                        why_ = f"`{fmt_term(f.term(w, inline=False))[:90]}` gives {_kind_txt(k)}"
+                        if k == kinds.START and scanned_ok:
+                            # the cursor itself is set to the window start and then advanced by the forward scan (no separate `lo`)
+                            st_, why_ = OK, why_ + '; the cursor is then advanced by the forward scan to LAST_LE(key)'
                         obs.append(Ob('KIND', f, w, 'segment chosen at each level is LAST_LE(key): the rightmost segment with key <= the sought key',
-                                      f"`{fmt_term(f.term(w, inline=False))[:90]}` gives {_kind_txt(k)}", OK if ok else (UNDECIDED if k is None else VIOLATED),
-                                      arm='linear' if rt[0] == 'local' else 'binary'))
+                                      why_, st_, arm='linear' if rt[0] == 'local' else 'binary'))
+                    elif nd['c'] in ('UnaryOperator', 'CXXOperatorCallExpr') and nd.get('op') == '++' and scanned_ok:
+                        continue        # the increment of the forward scan on the cursor itself
                     else:
-                        obs.append(Ob('KIND', f, w, 'cursor only assigned from routing results', f"cursor modified by `{fmt_term(f.term(w, inline=False))[:80]}`", VIOLATED, arm='other-write'))
+                        obs.append(Ob('KIND', f, w, 'cursor only assigned from routing results', f"cursor modified by `{fmt_term(f.term(w, inline=False))[:80]}`",
+                                      UNDECIDED if (nd.get('op') == '++') else VIOLATED, arm='other-write'))
                 obs.append(Ob('KIND', f, r, 'the routed cursor is returned', f"returns `{t[1]}`", OK, arm='return'))
             else:
                 k = kinds.kind_of_term(f.term(e, inline=True))
@@ -852,7 +869,9 @@ def rule_window_form(ctx, which, units=None):
             obs.append(Ob('WINDOW-FORM', f, d['decl'], req, f"`{d['name']} = {fmt_term(base)[:30]} + {fmt_term(off)[:110]}`" + ('' if ok else f" — {why}"),
                           OK if ok else VIOLATED, arm=role))
         if found_lo == 0:
-            obs.append(Ob('WINDOW-FORM', f, 0, 'a routing window start per level', 'no window start of the form level_begin + f(pos, EpsilonRecursive) found', VIOLATED, arm='lo'))
+            # nothing of the shape this rule knows (a local `lo = level_begin + f(pos)`): the routing may be written on indices or
+            # without a named window start - not a verdict
+            obs.append(Ob('WINDOW-FORM', f, 0, 'a routing window start per level', 'no window start of the form level_begin + f(pos, EpsilonRecursive) found', UNDECIDED, arm='lo'))
     return obs
 
 
@@ -987,7 +1006,16 @@ def rule_agree_eps(ctx, which, units=None):
                 if via_build_eps:
                     # source must be the run-time epsilon parameter of the extern "C" create function
                     ok = t[0] == 'param' and f.d.get('extern_c')
-                    obs.append(Ob('AGREE-EPS', f, s['node'], 'the run-time epsilon of *_create reaches the level-0 segmentation', desc, OK if ok else VIOLATED, arm='level0'))
+                    st_ = OK if ok else VIOLATED
+                    if not ok and '(lambda)' in f.tname and t[0] in ('local', 'param') :
+                        # the allocation sits in a closure inside *_create (handed to a helper that maps the exception to NULL): the
+                        # source is a capture of the enclosing function's parameter when the closure lives in an extern "C" function
+                        encl = u.functions.get(f.d.get('parent_fn'))
+                        if encl is not None and encl.d.get('extern_c') and any(p_['name'] == t[1] for p_ in encl.params):
+                            st_ = OK
+                        else:
+                            st_ = UNDECIDED
+                    obs.append(Ob('AGREE-EPS', f, s['node'], 'the run-time epsilon of *_create reaches the level-0 segmentation', desc, st_, arm='level0'))
                 elif via_build_rec:
                     # literal must equal the EpsilonRecursive of the routing code the wrapper inherits
                     want = None
@@ -997,7 +1025,9 @@ def rule_agree_eps(ctx, which, units=None):
                             if callee:
                                 want = callee.targs.get('EpsilonRecursive')
                     ok = t[0] == 'lit' and want is not None and str(t[1]) == want
-                    obs.append(Ob('AGREE-EPS', f, s['node'], f'upper levels are segmented with the EpsilonRecursive ({want}) of the inherited routing code', desc, OK if ok else VIOLATED, arm='recursive'))
+                    # the wrapper may route with code of its own instead of the inherited segment_for_key: nothing to compare with
+                    obs.append(Ob('AGREE-EPS', f, s['node'], f'upper levels are segmented with the EpsilonRecursive ({want}) of the inherited routing code', desc,
+                                  OK if ok else (UNDECIDED if want is None else VIOLATED), arm='recursive'))
         # hop discipline inside build(): the call outside the level loop passes `epsilon`, the call inside it `epsilon_recursive`
         if which in ('pgm', 'wrapper'):
             for h in hops:
@@ -1331,6 +1361,9 @@ def rule_upper_level_sentinel(ctx, which, units=None):
                 for x in _subterms_all(t):
                     if x[0] == 'local' and len(x) == 3:
                         d = fn.defs.get(x[2], {})
+                        if not d and fn is not f and f.defs.get(x[2], {}).get('init'):
+                            # a local of the enclosing function captured by the closure (constexpr K sentinel = Index::sentinel)
+                            todo.append((f, f.term(f.defs[x[2]]['init'], inline=False)))
                         if d.get('init'):
                             todo.append((fn, fn.term(d['init'], inline=False)))
                             # a closure handed to an algorithm (std::count_if(..., is_coded)): what it returns decides the value
@@ -1361,6 +1394,14 @@ def rule_upper_level_sentinel(ctx, which, units=None):
                                     todo.append((L, L.term(j, inline=False)))
                                     for (ct_, lab, cn) in _conds(L, j):
                                         todo.append((L, ct_))
+                    if x[0] == 'lambda' and fn is f:
+                        # a closure written in place as an argument (std::count_if(first, last, [](auto &s) { return s.key != sentinel; }))
+                        for j_ in f.all_ids():
+                            if f.n(j_)['c'] == 'LambdaExpr' and f.n(j_).get('lam_op') == x[1]:
+                                for L in [g_ for g_ in lams.values() if g_.d.get('line') == f.n(j_)['l'] and g_.name == 'operator()']:
+                                    for r_ in L.returns():
+                                        if L.n(r_)['ch']:
+                                            todo.append((L, L.term(L.n(r_)['ch'][0], inline=False)))
                     if x[0] == 'call' and len(x) == 4 and isinstance(x[3], tuple) and x[3] and x[3][0] == 'local':
                         for L in lambda_of_local(fn, x[3]):
                             for r_ in L.returns():
